@@ -417,10 +417,27 @@ fn gen_wrapper(r: &mut Rng) -> Vec<String> {
             if let Some(rest) = q.strip_prefix("q ") {
                 ops.push(format!("wq {rest}"));
             }
-        } else if c < 88 {
+        } else if c < 86 {
             ops.push("wflush".into());
+        } else if c < 89 && stored.len() >= 2 {
+            // torn flush around a remove / flush / re-insert of the same ids, then an ordinary flush and a second boot
+            let victims: Vec<u64> = stored.keys().copied().filter(|_| r.chance(1, 2)).collect();
+            for id in &victims {
+                ops.push(format!("wrm {id}"));
+            }
+            ops.push("wflush".into());
+            for id in &victims {
+                ops.push(format!("wins {id} {}", hex_bf16(&stored[id])));
+            }
+            ops.push(format!("wcrashi {}", r.below(victims.len() as u64 * 2 + 4)));
+            ops.push("wflush".into());
+            ops.push("wcrashi 100000".into()); // completes, then bootstraps: the second boot
+            let q = gen_query(r, &cfg, &stored, kind);
+            if let Some(rest) = q.strip_prefix("q ") {
+                ops.push(format!("wq {rest}"));
+            }
         } else {
-            ops.push(format!("wcrash {}", r.below(12)));
+            ops.push(format!("{} {}", if r.chance(1, 2) { "wcrashi" } else { "wcrash" }, r.below(12)));
             let q = gen_query(r, &cfg, &stored, kind);
             if let Some(rest) = q.strip_prefix("q ") {
                 ops.push(format!("wq {rest}"));
